@@ -290,7 +290,13 @@ func init() {
 	core.RegisterHelper("c09put", func(args []string) int {
 		// c09put <cacheDir> <tar 0|1> <spec json>
 		var s c09Spec
-		if err := json.Unmarshal([]byte(args[2]), &s); err != nil {
+		// args[2] is the path of a file holding the spec (a spec can exceed the kernel's per-argument limit)
+		specData, err := os.ReadFile(args[2])
+		if err != nil {
+			fmt.Fprintln(os.Stderr, err)
+			return 3
+		}
+		if err := json.Unmarshal(specData, &s); err != nil {
 			fmt.Fprintln(os.Stderr, err)
 			return 3
 		}
@@ -307,6 +313,13 @@ func init() {
 		fmt.Println(verifhook.TotalHits())
 		return 0
 	})
+}
+
+// c09SpecFile writes the module spec to a scratch file and returns its path.
+func c09SpecFile(c *core.C, specJSON []byte) string {
+	p := filepath.Join(c.Tmp, "c09spec.json")
+	os.WriteFile(p, specJSON, 0o644)
+	return p
 }
 
 func c09Repair(c *core.C, cacheDir string, tar bool, s c09Spec, key string) {
@@ -339,7 +352,7 @@ func c09Crash(c *core.C, mi int, tar bool) {
 		tarArg = "1"
 	}
 	runChild := func(kill string) (killed bool, out string, code int) {
-		cmd := exec.Command(core.SelfExe(), "helper", "c09put", cache, tarArg, string(specJSON))
+		cmd := exec.Command(core.SelfExe(), "helper", "c09put", cache, tarArg, c09SpecFile(c, specJSON))
 		cmd.Env = os.Environ()
 		if kill != "" {
 			cmd.Env = append(cmd.Env, "VERIF_KILL="+kill)
@@ -694,7 +707,7 @@ func c09LostRace(c *core.C, mi int) {
 	cache := filepath.Join(c.Tmp, "c09lostrace")
 	defer os.RemoveAll(cache)
 	child := func(env ...string) *exec.Cmd {
-		cmd := exec.Command(core.SelfExe(), "helper", "c09put", cache, "0", string(specJSON))
+		cmd := exec.Command(core.SelfExe(), "helper", "c09put", cache, "0", c09SpecFile(c, specJSON))
 		cmd.Env = append(os.Environ(), env...)
 		return cmd
 	}
